@@ -240,11 +240,19 @@ def run_many(item):
     ground_only = len(item) > 3 and item[3]
     cache = {}
     res = []
+    ntmo = 0
     for i, m in enumerate(modes):
+        if ntmo >= 2:
+            # a program that already timed out twice under other orders: record the rest as timeouts too
+            res.append({"mode": m, "status": "err", "err": "Timeout", "exact": {}, "canon": {}, "canonset": {},
+                        "stats": None, "reused": False, "secs": 0.0, "errmsg": "skipped after two timeouts"})
+            continue
         r = run_mode(prog, m, timeout, cache, ground_only)
         res.append(r)
-        if i == 0 and r["status"] == "err" and r["err"] == "Timeout":
-            break
+        if r["status"] == "err" and r["err"] == "Timeout":
+            if i == 0:
+                break
+            ntmo += 1
     return res
 
 
